@@ -457,8 +457,12 @@ class TaskDef:
             # No parents at any point
             return True
         if self.sequential:
-            # Implicit parents
-            return False
+            # Implicit parent: the previous instance, unless that is before
+            # the cutoff (as for the first instance of a run).
+            for seq in self.sequences:
+                prv = seq.get_nearest_prev_point(point)
+                if prv is not None and prv >= cutoff:
+                    return False
         parent_points = self.get_parent_points(point)
         return (
             not parent_points
